@@ -46,6 +46,17 @@ CHECKS = {
         note="Bounded: names {f1,f2}x{a.txt,b.txt}, depth per harness in the evidence file; CPython/pydantic trusted.",
         design_ref="DESIGN.md §4 C15",
     ),
+    "C05": dict(
+        technique="explicit-state BFS over a real 7-node Simulation; at every state exhaustive enumeration of live request paths x single-element mutations, executed against the real request tree with full-state comparison; action requests in forked snapshots",
+        text="BFS over tree-changing events (install/uninstall, create/delete, power, service stop/disable, NIC disable, ticks) on the "
+             "real Simulation of a GEN member. At every explored state all ~900 paths of the live request tree and all ~9,700 "
+             "single-element mutations (element deleted or misspelt at each depth) are classified by an independent walker; every "
+             "request classified missing/refused is executed: answer must be unreachable / failure-with-reason, never success, never "
+             "an exception, and deep canonical state + describe_state must be unchanged. Every registered action type aimed at "
+             "existing components is executed in a forked snapshot: never unreachable, never raises, documented status.",
+        note="Requests whose parameters (not path keys) are missing are classed malformed and not executed; handler-reaching raw paths are executed only when formed by an action class.",
+        design_ref="DESIGN.md §4 C05",
+    ),
     "C07": dict(
         technique="exhaustive product (rule configurations x packets) on real AccessControlList vs reference; BFS over add/remove via API, request tree, action classes",
         text="Every single rule of a 3456-rule field product and every ordered pair (thorough: triple) of a 12-rule covering set at every "
@@ -55,6 +66,17 @@ CHECKS = {
              "classes against a reference slot list; Router.from_config placement is compared too.",
         note="Covering set of addresses/ports, not all 2^32; port 0 (PORT_LOOKUP NONE) is read as 'unspecified'.",
         design_ref="DESIGN.md §4 C07",
+    ),
+    "C18": dict(
+        technique="explicit-state BFS over real networks with tight link bandwidths; monitor on Link/AirSpace admission and transmit; accounting invariants on every transmission and state",
+        text="Switched, routed and wireless topologies built through the Python API with link bandwidth / channel capacity of 1, 1.5, 2.5, "
+             "10 frames and the shipped default (first event of every history); BFS over pings (warm and cold/ARP flood), nested "
+             "database request/reply, FTP bulk put, DoS burst, interface toggles and ticks, plus fixed long scripted histories as vacuity "
+             "witnesses. A monitor on Link.can_transmit_frame/transmit_frame/endpoint_down and AirSpace checks after every transmission "
+             "and at every state: load <= capacity, both ends enabled at transmission, per-tick carried total <= capacity, loads zero after "
+             "pre_timestep, describe_state loads equal the real ones.",
+        note="Seams fix frame sizes (counter-based secrets, fixed clock). 'Carried' = frames the receiving interface accepted or all frames put on an up link (both conventions accepted).",
+        design_ref="DESIGN.md §4 C18",
     ),
 }
 
